@@ -14,11 +14,21 @@ def pytest_configure(config):
     from vf import core, attach
     core.ensure_deps()
     os.environ.setdefault(core.GUARD, '1')
-    attach.install(dispatch=True, functions=True)
+    if os.environ.get('VERIF_PLUGIN_FN') == '1':
+        # Function-level adjoint monitors instead of the call wrappers (every backward invocation of the
+        # suite is judged)
+        from vf.props import c05, c06
+        c05.install_function_monitor()
+        c06.install_function_monitor()
+    else:
+        attach.install(dispatch=True, functions=True)
 
 
 def pytest_runtest_setup(item):
     _current['test'] = item.nodeid
+
+
+_fn_records = []
 
 
 def pytest_runtest_teardown(item, nextitem):
@@ -26,6 +36,17 @@ def pytest_runtest_teardown(item, nextitem):
     for v in attach.drain():
         v['test'] = item.nodeid
         _records.append(v)
+    if os.environ.get('VERIF_PLUGIN_FN') == '1':
+        from vf.props import c05, c06
+        for mod, tag in ((c05, 'C05'), (c06, 'C06')):
+            for rec in mod._FN['log']:
+                r = dict(rec)
+                r['test'] = item.nodeid
+                r['prop'] = tag
+                if tag == 'C05':
+                    r['kf_key'] = c05.fn_kf(rec) if rec.get('status') == 'violated' else None
+                _fn_records.append(r)
+            del mod._FN['log'][:]
 
 
 def pytest_sessionfinish(session, exitstatus):
@@ -35,5 +56,5 @@ def pytest_sessionfinish(session, exitstatus):
         return
     wid = os.environ.get('PYTEST_XDIST_WORKER', 'main')
     with open('%s.%s' % (out, wid), 'w') as f:
-        json.dump({'records': _records, 'counts': dict(attach.COUNTS), 'ops': int(sum(attach.CENSUS.values())),
+        json.dump({'fn_records': _fn_records, 'records': _records, 'counts': dict(attach.COUNTS), 'ops': int(sum(attach.CENSUS.values())),
                    'mutating': dict(attach.MUTATING), 'exitstatus': int(exitstatus)}, f, default=str)
